@@ -192,6 +192,8 @@ pub fn ops() -> &'static [Op] {
             Op { name: "write_payload(&[u8; 1][..])", effect: || app(big()[..1].to_vec()), apply: |b| b.write_payload(&big()[..1]) },
             Op { name: "write_tlv(5u8, &[u8; 65532])", effect: || app(enc::tlv(5, &big()[..65532]).unwrap()), apply: |b| b.write_tlv(5u8, &big()[..65532]) },
             Op { name: "write_tlv(5u8, &[u8; 65535])", effect: || app(enc::tlv(5, &big()[..65535]).unwrap()), apply: |b| b.write_tlv(5u8, &big()[..65535]) },
+            // (60) a mid-size slice: after it the buffer's allocation, not its contents, exceeds the size limit
+            // -- declared further down to keep indices stable --
             // 47..=48 TLV sections that are not a clean run of whole items, or that were already iterated
             Op {
                 name: "write_payload(TypeLengthValues::from(&[4,0,1,42,1,0][..]))  (stray tail)",
@@ -261,6 +263,11 @@ pub fn ops() -> &'static [Op] {
                 apply: |b| b.write_tlv(Type::CRC32C, &[0, 0, 0, 0]),
             },
             Op {
+                name: "write_payload(TypeLengthValue::new(1u8, &[u8; 65536]).to_owned())  (owned oversized value)",
+                effect: || Effect::Oversized,
+                apply: |b| b.write_payload(TypeLengthValue::new(1u8, big()).to_owned()),
+            },
+            Op {
                 name: "write_payloads([(Type::SSL, &[1,0,0,0,0][..]), (Type::SSLVersion, b\"TLSv1.3\")])",
                 effect: || app([enc::tlv(enc::PP2_TYPE_SSL, &[1, 0, 0, 0, 0]).unwrap(), enc::tlv(enc::PP2_SUBTYPE_SSL_VERSION, b"TLSv1.3").unwrap()].concat()),
                 apply: |b| b.write_payloads([(Type::SSL, &[1u8, 0, 0, 0, 0][..]), (Type::SSLVersion, &b"TLSv1.3"[..])]),
@@ -270,16 +277,17 @@ pub fn ops() -> &'static [Op] {
                 effect: || app(enc::tlv(5, &[5, 0, 2, 0xab, 0xcd]).unwrap()),
                 apply: |b| b.write_payload((5u8, &[5u8, 0, 2, 0xab, 0xcd][..])),
             },
+            Op { name: "write_payload(&[u8; 40000][..])", effect: || app(big()[..40000].to_vec()), apply: |b| b.write_payload(&big()[..40000]) },
         ]
     })
 }
 
-/// the main alphabet: ops 0..=40 and 47..=58
+/// the main alphabet: ops 0..=40 and 47..=59
 pub fn main_ops() -> Vec<u8> {
-    (0..41u8).chain(47..59u8).collect()
+    (0..41u8).chain(47..60u8).collect()
 }
 /// slices of 65535 / 65519 / 16 / 1 bytes, set_length(7), set_length(None), u8, big TLVs
-pub const BOUNDARY_OPS: [u8; 9] = [41, 42, 43, 44, 4, 6, 7, 45, 46];
+pub const BOUNDARY_OPS: [u8; 10] = [41, 42, 43, 44, 4, 6, 7, 45, 46, 60];
 /// a small core alphabet for the deepest searches
 pub const CORE_OPS: [u8; 12] = [1, 3, 4, 6, 7, 8, 20, 23, 34, 36, 19, 47];
 
